@@ -436,7 +436,11 @@ func (p *scriptParser) parseFrame(d int) {
 			for j := 0; j < pops && j < n; j++ {
 				l.Big(e.Stack[n-1-j].ToBig())
 			}
-			l.Close().B(e.Mem).Open()
+			if e.Op <= 0xe3 {
+				l.Close().B(e.Mem).Open() // only the instructions that take a memory pointer read memory
+			} else {
+				l.Close().B(nil).Open()
+			}
 			for j := 0; j+64 <= len(e.RData); j += 64 {
 				l.Open().Big(new(big.Int).SetBytes(e.RData[j : j+32])).Big(new(big.Int).SetBytes(e.RData[j+32 : j+64])).Close()
 			}
@@ -676,7 +680,7 @@ func cmdExec(args []string) error {
 		}
 		w := &world{Code: map[common.Address][]byte{}, Storage: map[common.Address]map[common.Hash]common.Hash{},
 			Balance: map[common.Address]*big.Int{}, Nonce: map[common.Address]uint64{}}
-		opts := progen.Opts{Fork: fi, MaxSnips: 10, Cancun: fork == "Cancun", Journal: true}
+		opts := progen.Opts{Fork: fi, MaxSnips: 10, Cancun: fork == "Cancun", Journal: true, SmallMem: true}
 		for k, a := range u.Contracts {
 			code := progen.Program(rr, u, opts)
 			if k > 0 && rr.Intn(8) == 0 {
@@ -700,7 +704,7 @@ func cmdExec(args []string) error {
 		w.Nonce[exCaller] = uint64(rr.Intn(3))
 		code0 := w.Code[u.Contracts[0]]
 		if cs.Entry >= 4 {
-			code0 = progen.Program(rr, u, progen.Opts{Fork: fi, MaxSnips: 6, Journal: true})
+			code0 = progen.Program(rr, u, progen.Opts{Fork: fi, MaxSnips: 6, Journal: true, SmallMem: true})
 			cs.Codes["init"] = fmt.Sprintf("%x", code0)
 		}
 		cs.Bindings, cs.Aspects = genBindings(rr, u)
@@ -711,6 +715,12 @@ func cmdExec(args []string) error {
 			cs.Result = "panic"
 			cases = append(cases, cs)
 			sb.WriteString("EX [ ]\n")
+			continue
+		}
+		if len(run.rec.Events) > 2500 {
+			// very long executions (deep recursion until gas runs out) make the case file huge and add nothing
+			// the shorter ones do not show; they are counted, not compared
+			stats["skipped-too-long"]++
 			continue
 		}
 		line, skipped := buildExecLine(&cs, run, w, u, code0, true)
